@@ -34,7 +34,8 @@ VARIANTS = [
     V("rev-F8", ["C20"], A, "        matchs &= distances < 1e-6\n", "", "ABS-RESIDUAL", "pairs_min_distance", "filter relative to the minimum only"),
     V("rev-F9", ["C05", "C06", "C14"], C, "if tolerance is not None and error > tolerance:", "if tolerance and error > tolerance:", "N", "BaseCurve.update", "truthiness test of the tolerance"),
     V("rev-F10", ["C08"], C, "[other / w for w in newcurve.weights]", "[1 / w for w in newcurve.weights]", "DEP-MAY", "__rtruediv__", "numerator ignored"),
-    V("rev-F12", ["C18"], K, "        last = self[-1]\n        self.internal = ImmutableKnotVector(knoti / last for knoti in self)", "        self.scale(1 / self[-1])", "R", "normalize", "scale by reciprocal of own element"),
+    V("rev-F12", ["C18"], K, "        umin, umax = self[0], self[-1]\n        length = umax - umin\n        vector = tuple((knoti - umin) / length for knoti in self)\n        self.internal = ImmutableKnotVector(vector)", "        self.shift(-self[0])\n        self.scale(1 / self[-1])", "R", "normalize", "scale by reciprocal of own element"),
+    V("rev-F27", ["C03", "C18"], K, "        umin, umax = self[0], self[-1]\n        length = umax - umin\n        vector = tuple((knoti - umin) / length for knoti in self)\n        self.internal = ImmutableKnotVector(vector)", "        self.shift(-self[0])\n        last = self[-1]\n        self.internal = ImmutableKnotVector(knoti / last for knoti in self)", "COMMIT-LAST", "normalize", "shift committed before the validated scaling"),
     V("rev-F13", ["C04", "C06", "C07"], H, "        one = knotvector[-1] - knotvector[0]\n        one = (node - node + one) / one\n", "        one = node / node\n", "D", "one_knot_insert_once", "division by the node"),
     V("rev-F14", ["C03"], H, "while degree + 2 < lenght and vector[degree] == vector[degree + 1]:", "while vector[degree] == vector[degree + 1]:", "X-INDEX", "__is_valid", "unbounded index scan"),
     V("rev-F15", ["C16"], H, "                    if elem.denominator == 1:\n                        result[i, j] = int(elem)\n        return totuple(result)", "                    if elem.denominator == 1:\n                        result[i, j] = int(elem)\n            result = result.astype(\"int64\")\n        return totuple(result)", "FIXED-WIDTH", "Linalg.solve", "int64 cast"),
@@ -43,8 +44,8 @@ VARIANTS = [
     # ---- seeded faults that pass the unedited suite (DESIGN §6)
     V("elev-nodtype", ["C16"], H, "        matrix = np.zeros((degree + 2, degree + 1), dtype=\"object\")", "        matrix = np.zeros((degree + 2, degree + 1))", "E8", "degree_increase", "elevation matrix as float64"),
     V("clean-once", ["C14"], C, "            try:\n                while True:\n                    self.knot_remove((knot,), tolerance)\n            except ValueError:\n                pass", "            try:\n                self.knot_remove((knot,), tolerance)\n            except ValueError:\n                pass", "UNTIL-REFUSED", "knot_clean", "one attempt per knot"),
-    V("pair-open-closed", ["C11", "C10"], H, "            nodes0to1 = NodeSample.closed_linspace(nptsinteg)\n            integrator = IntegratorArray.closed_newton_cotes(nptsinteg)", "            nodes0to1 = NodeSample.open_linspace(nptsinteg)\n            integrator = IntegratorArray.closed_newton_cotes(nptsinteg)", "PAIR", "func2func", "open nodes with closed weights"),
-    V("pair-size", ["C11", "C10"], H, "            integrator = IntegratorArray.closed_newton_cotes(nptsinteg)", "            integrator = IntegratorArray.closed_newton_cotes(nptsinteg - 1)", "PAIR", "func2func", "weights for one point less"),
+    V("pair-open-closed", ["C11", "C10"], H, "            nodes0to1 = NodeSample.open_linspace(nptsinteg)\n            integrator = IntegratorArray.open_newton_cotes(nptsinteg)", "            nodes0to1 = NodeSample.open_linspace(nptsinteg)\n            integrator = IntegratorArray.closed_newton_cotes(nptsinteg)", "PAIR", "func2func", "open nodes with closed weights"),
+    V("pair-size", ["C11", "C10"], H, "            integrator = IntegratorArray.open_newton_cotes(nptsinteg)", "            integrator = IntegratorArray.open_newton_cotes(nptsinteg - 1)", "PAIR", "func2func", "weights for one point less"),
     V("registry-cheby-gauss", ["C10"], CA, "            \"chebyshev\": heavy.NodeSample.chebyshev,\n            \"gauss-legendre\": heavy.NodeSample.gauss_legendre,\n        }\n        array_functs = {\n            \"closed-newton-cotes\": heavy.IntegratorArray.closed_newton_cotes,\n            \"open-newton-cotes\": heavy.IntegratorArray.open_newton_cotes,\n            \"chebyshev\": heavy.IntegratorArray.chebyshev,\n            \"gauss-legendre\": heavy.IntegratorArray.gauss_legendre,\n        }\n        assert isinstance(curve, Curve)\n        if function is None:\n            function = lambda u: 1\n        if method is not None:\n            pass\n        elif isinstance(curve.knotvector[0], (int, Fraction)):\n            method = \"open-newton-cotes\"\n        else:\n            method = \"chebyshev\"\n        if nnodes is None:\n            nnodes = 1 + curve.degree\n        nodes_func = nodes_functs[method]\n        integ_array_func = array_functs[method]\n        nodes_0to1 = nodes_func(nnodes)\n        integ_array = integ_array_func(nnodes)\n        knots = curve.knotvector.knots\n        integrals = []\n        for start, end in zip(knots[:-1], knots[1:]):\n            nodes = tuple(start + (end - start) * node for node in nodes_0to1)\n            curve_vals = tuple(curve.eval(node) for node in nodes)\n            abscurve_vals", "            \"chebyshev\": heavy.NodeSample.gauss_legendre,\n            \"gauss-legendre\": heavy.NodeSample.gauss_legendre,\n        }\n        array_functs = {\n            \"closed-newton-cotes\": heavy.IntegratorArray.closed_newton_cotes,\n            \"open-newton-cotes\": heavy.IntegratorArray.open_newton_cotes,\n            \"chebyshev\": heavy.IntegratorArray.chebyshev,\n            \"gauss-legendre\": heavy.IntegratorArray.gauss_legendre,\n        }\n        assert isinstance(curve, Curve)\n        if function is None:\n            function = lambda u: 1\n        if method is not None:\n            pass\n        elif isinstance(curve.knotvector[0], (int, Fraction)):\n            method = \"open-newton-cotes\"\n        else:\n            method = \"chebyshev\"\n        if nnodes is None:\n            nnodes = 1 + curve.degree\n        nodes_func = nodes_functs[method]\n        integ_array_func = array_functs[method]\n        nodes_0to1 = nodes_func(nnodes)\n        integ_array = integ_array_func(nnodes)\n        knots = curve.knotvector.knots\n        integrals = []\n        for start, end in zip(knots[:-1], knots[1:]):\n            nodes = tuple(start + (end - start) * node for node in nodes_0to1)\n            curve_vals = tuple(curve.eval(node) for node in nodes)\n            abscurve_vals", "PAIR", "Integrate.density", "Chebyshev key mapped to Gauss nodes"),
     V("integ-default-cheby", ["C16"], CA, "        elif isinstance(curve.knotvector[0], (int, Fraction)):\n            method = \"open-newton-cotes\"\n        else:\n            method = \"chebyshev\"\n        if nnodes is None:\n            nnodes = 1 + curve.degree\n        nodes_func = nodes_functs[method]\n        integ_array_func = array_functs[method]\n        nodes_0to1 = nodes_func(nnodes)\n        integ_array = integ_array_func(nnodes)\n        knots = curve.knotvector.knots\n        integrals = []\n        for start, end in zip(knots[:-1], knots[1:]):\n            nodes = tuple(start + (end - start) * node for node in nodes_0to1)\n            curve_vals = tuple(curve.eval(node) for node in nodes)\n            function_vals", "        elif isinstance(curve.knotvector[0], (int, Fraction)):\n            method = \"chebyshev\"\n        else:\n            method = \"chebyshev\"\n        if nnodes is None:\n            nnodes = 1 + curve.degree\n        nodes_func = nodes_functs[method]\n        integ_array_func = array_functs[method]\n        nodes_0to1 = nodes_func(nnodes)\n        integ_array = integ_array_func(nnodes)\n        knots = curve.knotvector.knots\n        integrals = []\n        for start, end in zip(knots[:-1], knots[1:]):\n            nodes = tuple(start + (end - start) * node for node in nodes_0to1)\n            curve_vals = tuple(curve.eval(node) for node in nodes)\n            function_vals", "E8", "Integrate.scalar", "default rule on exact knots is Chebyshev"),
     V("div-noguard", ["C08"], C, "            copied.ctrlpoints = [point / other for point in copied.ctrlpoints]\n            return copied\n        if self.knotvector.limits != other.knotvector.limits:\n            raise ValueError\n", "            copied.ctrlpoints = [point / other for point in copied.ctrlpoints]\n            return copied\n", "GATE-LIMITS", "__truediv__", "curve / curve without limits guard"),
@@ -71,7 +72,7 @@ VARIANTS = [
     V("func-eval-wrong-degree", ["C02"], F, "        evaluator = self[:, self.degree]", "        evaluator = self[:, 0]", "DEP-MAY", "IndexableFunction.eval", "f(u) evaluated at degree 0"),
     V("derivate-mutates", ["C09", "C15"], CA, "        dnumer = Derivate.nonrational_spline(numer)\n        dnumer.degree_increase(1)  # Shouldn't be necessary", "        curve.degree_increase(1)\n        dnumer = Derivate.nonrational_spline(numer)\n        dnumer.degree_increase(1)  # Shouldn't be necessary", "PURE", "rational_spline", "Derivate elevates its argument"),
     V("derivate-fallthrough", ["C09"], CA, "        if curve.weights is None:\n            return Derivate.nonrational_bezier(curve)\n        return Derivate.rational_bezier(curve)", "        if curve.weights is None:\n            return Derivate.nonrational_bezier(curve)\n        if len(curve.weights) > 0:\n            return Derivate.rational_bezier(curve)", "EXHAUSTIVE", "Derivate.bezier", "dispatch falls through"),
-    V("split-drop-weights", ["C07"], C, "                newcurve.weights = newweights\n                newcurve.ctrlpoints = [\n                    num / w for num, w in zip(numerators, newweights)\n                ]\n", "                newcurve.ctrlpoints = [\n                    num / w for num, w in zip(numerators, newweights)\n                ]\n", "DEP-MUST", "Curve.split", "pieces lose their weights"),
+    V("split-drop-weights", ["C07"], C, "                newcurve.weights = newweights\n                newcurve.ctrlpoints = [\n                    invert(w) * num for num, w in zip(numerators, newweights)\n                ]\n", "                newcurve.ctrlpoints = [\n                    invert(w) * num for num, w in zip(numerators, newweights)\n                ]\n", "DEP-MUST", "Curve.split", "pieces lose their weights"),
     V("fitpoints-no-count", ["C12"], C, "        assert len(points) >= self.npts\n        fitfunc = heavy.LeastSquare.fit_function", "        fitfunc = heavy.LeastSquare.fit_function", "GATE-COUNT", "fit_points", "count check removed"),
     V("fitfunction-other-nodes", ["C12"], C, "        nodes = tuple(nodes)\n        funcvals = [function(node) for node in nodes]\n        return self.fit_points(funcvals, nodes)", "        nodes = tuple(nodes)\n        funcvals = [function(node) for node in nodes]\n        nodes = tuple(sorted(nodes, reverse=True))\n        return self.fit_points(funcvals, nodes)", "SAME-NODES", "fit_function", "nodes rebound between sampling and fitting"),
     V("degree-setter-swapped", ["C06"], C, "        if times > 0:\n            return self.degree_increase(times)\n        return self.degree_decrease(-times)", "        if times > 0:\n            return self.degree_increase(times)\n        return self.degree_decrease(times)", "DISPATCH", "degree.setter", "reduction called with a negative count"),
@@ -81,7 +82,7 @@ VARIANTS = [
     V("add-ignores-other-kv", ["C08"], C, "            curve = Curve(self.knotvector | other.knotvector)\n            ctrlpoints = np.array(matra) @ self.ctrlpoints\n            ctrlpoints += np.array(matrb) @ other.ctrlpoints", "            curve = Curve(self.knotvector | other.knotvector)\n            ctrlpoints = np.array(matra) @ self.ctrlpoints", "DEP-MAY", "__add__", "sum ignores the second operand's points"),
     V("curve-shared-kv-shift", ["C15"], C, "        nodes = self.knotvector.knots\n        newnodes = times * nodes\n        newvector = self.knotvector + newnodes", "        nodes = self.knotvector.knots\n        newnodes = times * nodes\n        self.knotvector.insert(newnodes)\n        newvector = self.knotvector", "SHARED-KV", "degree_increase", "in-place insert on the shared KnotVector"),
     V("seed-wrong-weight", ["C10"], H, "        3: (Fraction(1, 6), Fraction(2, 3), Fraction(1, 6)),", "        3: (Fraction(1, 6), Fraction(3, 5), Fraction(1, 6)),", "SEED", "closed_newton", "literal Simpson weights wrong"),
-    V("minpoint-left", ["C16"], C, "                        newpoint = line[j] * point\n", "                        newpoint = point * line[j]\n", "MIN-POINT", "BaseCurve.apply", "point * scalar"),
+    V("minpoint-left", ["C16"], C, "                        newpoint = newpoint + (line[j] * invweight) * point\n", "                        newpoint = newpoint + point * (line[j] * invweight)\n", "MIN-POINT", "BaseCurve.apply", "point * scalar"),
     V("eq-type-guard-late", ["C13"], C, "        if type(self) is not type(other):\n            return False\n        if self.knotvector[0] != other.knotvector[0]:\n            return False", "        if self.knotvector[0] != other.knotvector[0]:\n            return False\n        if type(self) is not type(other):\n            return False", "TYPE-GUARD", "__eq__", "type guard not first"),
     # ---- behaviour-preserving twins: must stay silent
     V("twin-eq-rename", ["C13"], C, "        othercopy = copy(other)\n        othercopy.knotvector = newknotvec\n        for poi, qoi in zip(selfcopy.ctrlpoints, othercopy.ctrlpoints):", "        refined = copy(other)\n        refined.knotvector = newknotvec\n        for poi, qoi in zip(selfcopy.ctrlpoints, refined.ctrlpoints):", None, None, "local renamed", twin=True),
@@ -95,7 +96,7 @@ VARIANTS = [
     V("twin-newton-for", ["C19"], A, "        for _ in range(100):\n            bezui", "        for _iteration in range(50):\n            bezui", None, None, "other iteration bound", twin=True),
     V("twin-pairs-guard", ["C20"], A, "        if len(pairs) == 0:\n            return tuple()\n        pairs = tuple(pairs)\n        pairs = Intersection.filter_pairs(pairs)\n        pairs = Intersection.pairs_min_distance(pairs, curvea, curveb)", "        if len(pairs) != 0:\n            pairs = tuple(pairs)\n            pairs = Intersection.filter_pairs(pairs)\n            pairs = Intersection.pairs_min_distance(pairs, curvea, curveb)\n            return pairs\n        return tuple()\n        pairs = ()", None, None, "guard with the other polarity", twin=True),
     V("twin-fitpoints-raise", ["C12"], C, "        assert len(points) >= self.npts\n        fitfunc", "        if len(points) < self.npts:\n            raise ValueError(\"fewer points than control points\")\n        fitfunc", None, None, "assert written as raise ValueError", twin=True),
-    V("twin-normalize-div", ["C18", "C03"], K, "        last = self[-1]\n        self.internal = ImmutableKnotVector(knoti / last for knoti in self)", "        length = self[-1]\n        vector = tuple(knoti / length for knoti in self)\n        self.internal = ImmutableKnotVector(vector)", None, None, "division spelled with a temporary", twin=True),
+    V("twin-normalize-div", ["C18", "C03"], K, "        umin, umax = self[0], self[-1]\n        length = umax - umin\n        vector = tuple((knoti - umin) / length for knoti in self)\n        self.internal = ImmutableKnotVector(vector)", "        lower = self[0]\n        span = self[-1] - lower\n        self.internal = ImmutableKnotVector((knoti - lower) / span for knoti in self)", None, None, "rebuild spelled with other temporaries", twin=True),
     V("twin-ikv-or", ["C17"], H, "        other = ImmutableKnotVector(other)\n        if self.limits != other.limits:\n            raise ValueError\n        all_knots = list(self.knots) + list(other.knots)", "        other = ImmutableKnotVector(other)\n        if not self.limits == other.limits:\n            raise ValueError(\"different intervals\")\n        all_knots = list(self.knots) + list(other.knots)", None, None, "guard rewritten", twin=True),
     V("twin-derivate-temp", ["C09"], CA, "        ctrlpoints = tuple(np.dot(matrix, curve.ctrlpoints))\n        newcurve = curve.__class__(vector[1:-1], ctrlpoints)", "        points = np.dot(matrix, curve.ctrlpoints)\n        ctrlpoints = tuple(points)\n        newcurve = curve.__class__(vector[1:-1], ctrlpoints)", None, None, "temporary introduced", twin=True),
     V("twin-getitem-order", ["C02"], F, "        self.__valid_first_index(i)\n        self.__valid_second_index(j)", "        self.__valid_second_index(j)\n        self.__valid_first_index(i)", None, None, "validators reordered", twin=True),
@@ -105,7 +106,7 @@ VARIANTS = [
 
 VARIANTS += [
     V("twin-split-fullvector", ["C07", "C03"], H, "            middle = list(vector[(a < vector) * (vector < b)])", "            middle = [knot for knot in self if a < knot < b]", None, None, "middle knots taken from the full vector by a comprehension", twin=True),
-    V("twin-normalize-early-exit", ["C18"], K, "        self.shift(-self[0])\n        last = self[-1]", "        if self[0] == 0 and self[-1] == 1:\n            return self\n        self.shift(-self[0])\n        last = self[-1]", None, None, "early exit when already on [0, 1]", twin=True),
+    V("twin-normalize-early-exit", ["C18"], K, "        umin, umax = self[0], self[-1]\n        length = umax - umin", "        if self[0] == 0 and self[-1] == 1:\n            return self\n        umin, umax = self[0], self[-1]\n        length = umax - umin", None, None, "early exit when already on [0, 1]", twin=True),
     V("twin-eq-skip-if-equal", ["C13"], C, "        selfcopy = copy(self)\n        selfcopy.knotvector = newknotvec\n        othercopy = copy(other)\n        othercopy.knotvector = newknotvec\n", "        selfcopy = copy(self)\n        othercopy = copy(other)\n        if self.knotvector != other.knotvector:\n            selfcopy.knotvector = newknotvec\n            othercopy.knotvector = newknotvec\n", None, None, "refinement skipped only for equal knot vectors", twin=True),
     V("twin-derivate-limits", ["C09"], CA, "        newknotvector = number_bound * [knotvector[0]] + number_bound * [knotvector[-1]]", "        umin, umax = curve.knotvector.limits\n        newknotvector = number_bound * [umin] + number_bound * [umax]", None, None, "derivative knot vector from the limits", twin=True),
     V("twin-fit-cond-order", ["C11"], C, "        if self.weights is None and other.weights is None:\n            lstsq = heavy.LeastSquare.spline2spline", "        if other.weights is None and self.weights is None:\n            lstsq = heavy.LeastSquare.spline2spline", None, None, "conjuncts swapped", twin=True),
@@ -139,7 +140,7 @@ VARIANTS += [
 
 
 VARIANTS += [
-    V("rev-F16", ["C07"], C, "            if self.weights is None:\n                newcurve.ctrlpoints = np.dot(matrix, self.ctrlpoints)\n            else:\n                numerators = [w * pt for w, pt in zip(self.weights, self.ctrlpoints)]\n                numerators = np.dot(matrix, numerators)\n                newweights = np.dot(matrix, self.weights)\n                newcurve.weights = newweights\n                newcurve.ctrlpoints = [\n                    num / w for num, w in zip(numerators, newweights)\n                ]\n",
+    V("rev-F16", ["C07"], C, "            if self.weights is None:\n                newcurve.ctrlpoints = np.dot(matrix, self.ctrlpoints)\n            else:\n                numerators = [w * pt for w, pt in zip(self.weights, self.ctrlpoints)]\n                numerators = np.dot(matrix, numerators)\n                newweights = np.dot(matrix, self.weights)\n                newcurve.weights = newweights\n                newcurve.ctrlpoints = [\n                    invert(w) * num for num, w in zip(numerators, newweights)\n                ]\n",
       "            newcurve.ctrlpoints = np.dot(matrix, self.ctrlpoints)\n            if self.weights is not None:\n                newcurve.weights = np.dot(matrix, self.weights)\n", "DEP-MAY", "Curve.split", "pieces of a rational curve built from the unweighted control points"),
     V("rev-F17", ["C07"], C, "        newctrlpoints = list(selfcopy.ctrlpoints) + list(othercopy.ctrlpoints)\n", "        newctrlpoints = list(selfcopy.ctrlpoints) + list(othercopy.ctrlpoints[1:])\n", "ELEM-COVER", "__or__", "first control point of the right operand dropped"),
     V("rev-F11", ["C07"], C, "        weights0, weights1 = selfcopy.weights, othercopy.weights\n        if weights0 is not None or weights1 is not None:", "        weights0, weights1 = None, None\n        if weights0 is not None or weights1 is not None:", "DEP-MUST", "__or__", "weights of the operands never read"),
@@ -151,6 +152,42 @@ VARIANTS += [
     V("twin-f18-repaired", ["C11", "C10"], H, "            for k, integ in enumerate(integrator):\n                FF += integ *", "            for k, integ in enumerate(integrator):\n                integ = (end - start) * integ\n                FF += integ *", None, None, "span sums of func2func multiplied by the span length (the repair of F18 that was tried)", twin=True),
     V("scalar-no-length", ["C10"], CA, "            integrals.append((end - start) * new_integral)\n        return sum(integrals)", "            integrals.append(new_integral)\n        return sum(integrals)", "JACOBIAN", "Integrate.scalar", "span length dropped from Integrate.scalar", near=176),
     V("rev-F19", ["C04", "C15"], C, "        if len(matrix) != newknotvector.npts:\n            error_msg = f\"The matrix gives {len(matrix)} control points, \"\n            error_msg += f\"the knot vector needs {newknotvector.npts}\"\n            raise ValueError(error_msg)\n", "", "PRECHECK-LEN", "BaseCurve.apply", "compatibility pre-check of apply removed"),
+]
+
+
+VARIANTS += [
+    V("rev-F21", ["C08", "C09"], H, "        for knot, classe in zip(allknots[1:-1], classes[1:-1]):", "        for knot, classe in zip(allknots[1:-1], classes):", "ZIP-ALIGN", "knotvector_mul", "interior knots zipped with the unsliced class list"),
+    V("twin-kvmul-index", ["C08", "C09"], H, "        for knot, classe in zip(allknots[1:-1], classes[1:-1]):\n            knotvectorc += [knot] * (degreec - classe)", "        for i in range(1, len(allknots) - 1):\n            knotvectorc += [allknots[i]] * (degreec - classes[i])", None, None, "interior knots visited by index", twin=True),
+    V("rev-F20", ["C05", "C06", "C14"], C, "            numerators = [wei * pt for wei, pt in zip(oldweights, other.ctrlpoints)]\n            error = np.dot", "            numerators = list(other.ctrlpoints)\n            error = np.dot", "WEIGHT-HOMOG", "fit_curve", "rational fit maps the unweighted control points"),
+    V("twin-fit-homog-names", ["C05", "C11"], C, "            weights = np.dot(transmat, oldweights)\n            numerators = np.dot(transmat, numerators)\n            ctrlpoints = [invert(wei) * num for num, wei in zip(numerators, weights)]\n            self.weights = weights", "            newweights = np.dot(transmat, oldweights)\n            newnumerators = np.dot(transmat, numerators)\n            ctrlpoints = [invert(wei) * num for num, wei in zip(newnumerators, newweights)]\n            self.weights = newweights", None, None, "homogeneous fit with other local names", twin=True),
+]
+
+
+VARIANTS += [
+    V("rev-F26", ["C11", "C06"], H, "            nodes0to1 = NodeSample.open_linspace(nptsinteg)\n            integrator = IntegratorArray.open_newton_cotes(nptsinteg)", "            nodes0to1 = NodeSample.closed_linspace(nptsinteg)\n            integrator = IntegratorArray.closed_newton_cotes(nptsinteg)", "OPEN-NODES", "func2func", "closed quadrature nodes in the Gram integration"),
+    V("rev-F25", ["C09"], CA, "        newcurve = curve.__class__(vector[1:-1], ctrlpoints)\n        return newcurve", "        newcurve = curve.__class__(vector[1:-1], ctrlpoints)\n        newcurve.clean()\n        return newcurve", "NO-LOSSY", "nonrational_bezier", "derivative passed through clean()"),
+    V("rev-F24", ["C12", "C16"], C, "            nodes_0to1 = heavy.NodeSample.closed_linspace(len(points))", "            if isinstance(umin, (int, Fraction)):\n                funcnodes = heavy.NodeSample.closed_linspace\n            else:\n                funcnodes = heavy.NodeSample.chebyshev\n            nodes_0to1 = funcnodes(len(points))", "ONE-NODE-FAMILY", "fit_points", "default nodes chosen by the number type"),
+    V("rev-F23", ["C16"], H, "        matrix = np.array(matrix, dtype=\"object\")\n        matrix = np.column_stack((matrix, inverse))", "        matrix = np.column_stack((matrix, inverse))", "FIXED-WIDTH", "invert_integer_matrix", "tuple of Python ints stacked without dtype=object"),
+    V("rev-F22", ["C16"], C, "                    invert(w) * num for num, w in zip(numerators, newweights)", "                    num / w for num, w in zip(numerators, newweights)", "MIN-POINT", "Curve.split", "weighted point divided by the new weight"),
+    V("twin-derivate-names", ["C09"], CA, "        newcurve = curve.__class__(vector[1:-1], ctrlpoints)\n        return newcurve", "        derivative = curve.__class__(vector[1:-1], ctrlpoints)\n        return derivative", None, None, "result of nonrational_bezier under another name", twin=True),
+    V("twin-stack-object", ["C16"], H, "        matrix = np.array(matrix, dtype=\"object\")\n        matrix = np.column_stack((matrix, inverse))", "        matrix = np.column_stack((np.array(matrix, dtype=\"object\"), inverse))", None, None, "object conversion inlined", twin=True),
+]
+
+
+VARIANTS += [
+    V("rev-F28", ["C19"], A, "        tvalues = {umin, umax}  # The minimum may be at an end, not stationary\n", "        tvalues = set()\n", "ENDS-CANDIDATE", "point_on_bezier", "candidate set starts empty"),
+    V("twin-ends-add", ["C19"], A, "        tvalues = {umin, umax}  # The minimum may be at an end, not stationary\n", "        tvalues = set()\n        tvalues.add(umin)\n        tvalues.add(umax)\n", None, None, "ends added one by one", twin=True),
+]
+
+
+VARIANTS += [
+    V("rev-F2", ["C13"], C, "        if self.weights is not None or other.weights is not None:\n            # Rational curves are equal when the cross products are equal\n            numa, dena = self.fraction()\n            numb, denb = other.fraction()\n            return denb * numa == dena * numb\n", "", "DEP-MUST", "__eq__", "weights never read by =="),
+    V("twin-eq-cross-order", ["C13"], C, "            return denb * numa == dena * numb\n", "            left = denb * numa\n            right = dena * numb\n            return left == right\n", None, None, "cross products through locals", twin=True),
+]
+
+
+VARIANTS += [
+    V("rev-F29", ["C07"], C, "            newcurve.weights = newweights\n        newcurve.knot_clean([umaxleft])\n        return newcurve", "            newcurve.weights = newweights\n            return newcurve\n        newcurve.knot_clean([umaxleft])\n        return newcurve", "CLEAN-JUNCTION", "__or__", "rational join returned before knot_clean"),
 ]
 
 
@@ -235,9 +272,12 @@ def seeded_variants() -> List[dict]:
         if not (os.path.exists(mp) and os.path.exists(pp)):
             continue
         meta = json.load(open(mp))
-        if not meta.get("detected_by_checks"):
+        if not meta.get("detected_by_checks") or meta.get("superseded_by"):
             continue
         edits = _hunks(open(pp).read())
+        if meta.get("rebased"):
+            rb = meta["rebased"]
+            edits = [(rb["module"], rb["old"], rb["new"], None)]
         exp = meta["expected_report"]
         out.append(dict(id="seeded-" + d, props=meta["detected_by_checks"], module=edits[0][0] if edits else "?", edits=edits, rule=exp["rule"], func=exp["function_contains"], what="independently seeded: " + meta["needs_to_manifest"][:140], twin=False))
     return out
